@@ -136,6 +136,18 @@ def run_build(sc):
         for k, i in enumerate(grp.get_all_idxes() if hasattr(grp, "get_all_idxes") else []):
             pass
         ev.append(dict(e="backref", refs=refs, lists=lists))
+        if sc.get("reset_after"):
+            # set-up again (System.reset): the lists are recomputed, not appended to
+            try:
+                ss.reset()
+                lists2 = []
+                for m in ("PV", "Slack"):
+                    mdl = ss.models[m]
+                    for k in range(mdl.n):
+                        lists2.append(dict(target=T(mdl.idx.v[k]), members=[T(x) for x in mdl.SynGen.v[k]]))
+                ev.append(dict(e="backref", refs=refs, lists=lists2))
+            except Exception as ex:
+                ev.append(dict(e="setup", dangling=False, ok=False, raised=True, raised_text="reset: %s" % ex))
         if owners:
             helpers = [dict(idx=T(ss.BusFreq.idx.v[k]), bus=T(ss.BusFreq.bus.v[k]),
                             auto=(ss.BusFreq.idx.v[k] != "BF_user")) for k in range(ss.BusFreq.n)]
